@@ -1411,6 +1411,31 @@ int KSI_PublicationRecord_clone(const KSI_PublicationRecord *rec, KSI_Publicatio
 		}
 	}
 
+	/* Copy repository URIs. */
+	if (rec->repositoryUriList != NULL) {
+		res = KSI_Utf8StringList_new(&(tmp->repositoryUriList));
+		if (res != KSI_OK) goto cleanup;
+
+		for (i = 0; i < KSI_Utf8StringList_length(rec->repositoryUriList); i++){
+			KSI_Utf8String *str = NULL;
+			KSI_Utf8String *ref = NULL;
+			res = KSI_Utf8StringList_elementAt(rec->repositoryUriList, i, &str);
+			if (res != KSI_OK) {
+				KSI_pushError(rec->ctx, res, NULL);
+				goto cleanup;
+			}
+
+			res = KSI_Utf8StringList_append(tmp->repositoryUriList, ref = KSI_Utf8String_ref(str));
+			if (res != KSI_OK) {
+				/* Cleanup the reference. */
+				KSI_Utf8String_free(ref);
+
+				KSI_pushError(rec->ctx, res, NULL);
+				goto cleanup;
+			}
+		}
+	}
+
 	/* Copy publication data. */
 	res = KSI_PublicationData_new(rec->ctx, &(tmp->publishedData));
 	if (res != KSI_OK) {
